@@ -20,6 +20,8 @@
  * IN THE SOFTWARE.
  */
 
+#include <QUrl>
+
 #include <qhttpengine/handler.h>
 #include <qhttpengine/middleware.h>
 #include <qhttpengine/socket.h>
@@ -71,7 +73,10 @@ void Handler::route(Socket *socket, const QString &path)
             foreach (QString replacement, redirect.first.capturedTexts().mid(1)) {
                 newPath = newPath.arg(replacement);
             }
-            socket->writeRedirect(newPath.toUtf8());
+            // A capture may hold any decoded character, including CR and LF;
+            // percent-encode whatever may not appear in a URL, so that nothing
+            // taken from the request ends up as raw bytes in the header
+            socket->writeRedirect(QUrl::toPercentEncoding(newPath, "/:?#[]@!$&'()*+,;=%"));
             return;
         }
     }
